@@ -1593,3 +1593,37 @@ Example ex_app_bytes_computed :
   available_wordb (f_styles ex_plainf) ex_cmds SECRET = false /\ available_wordb (f_styles ex_plainf) ex_cmds OLD = false /\
   available_wordb (f_styles ex_plainf) ex_cmds SERVER = true.
 Proof. vm_compute. repeat split; reflexivity. Qed.
+(* more instances: the hypotheses of undecorated_keeps_plain_text (behind "<c1>" no candidate is pending; "--force" is plain) *)
+Example ex_kept_applied : forall sty b, plain_of sty false (C1 ++ T_FORCE ++ b) = plain_of sty false C1 ++ T_FORCE ++ plain_of sty false b.
+Proof. intros sty b. apply undecorated_keeps_plain_text; [reflexivity|discriminate|repeat constructor; discriminate|repeat constructor; discriminate]. Qed.
+(* application_page_bytes_complete_in_the_region applied to the application page of the examples at 29 and 80 columns *)
+Example ex_app_bytes_applied : forall W, W = 29%Z \/ W = 80%Z ->
+  exists s, render_page W ex_plainf (ex_app_page_for ex_plainf) = Ok s /\ on_line SERVER s /\ on_line T_FORCE s /\ on_line ([60]%N ++ COMMAND ++ [62]%N) s.
+Proof.
+  intros W HW.
+  destruct (application_page_bytes_complete_in_the_region W ex_plainf (f_styles ex_plainf) (Some APP) (Some APP) (Some ([49;46;50]%N)) [ex_force; ex_level] ex_cmds (Some DESC_FILE) eq_refl)
+    as (s & Hs & Ho & [_ Hc] & _ & Hn); [destruct HW as [-> | ->]; vm_compute; reflexivity|].
+  exists s. split; [exact Hs|]. split; [|split].
+  - apply (Hn _ (or_introl eq_refl) eq_refl). split; [discriminate|]. split; [ex_plain|repeat constructor; nl_char].
+  - destruct (Ho ex_force (or_introl eq_refl)) as [Hl _]. apply Hl; [ex_plain|repeat constructor; nl_char].
+  - apply Hc. eexists. vm_compute. reflexivity.
+Qed.
+(* the ANSI formatter on the page with tagged descriptions (ex_tpage: no ESC, no backslash): whenever it renders, the visible text
+   has the names *)
+Example ex_ansi_bytes_applied : forall W s, render_page W ex_ansif ex_tpage = Ok s ->
+  on_line T_FORCE (strip_sgr s) /\ on_line [45;102]%N (strip_sgr s) /\ on_line RUN (strip_sgr s).
+Proof.
+  intros W s Hs.
+  destruct (command_page_bytes_complete_ansi_visible W ex_ansif (f_styles ex_plainf) (Some APP) ex_chain_t [SRV] (Some DESC_FILE_T) [ex_sub_t RUN; ex_sub_t ADD] s I ex_ansi_good Hs)
+    as (_ & Ho & Hsub).
+  destruct (Ho ex_force_t (or_introl (or_introl eq_refl))) as [Hl Hsh].
+  destruct (Hsub (ex_sub_t RUN) (or_introl eq_refl) eq_refl eq_refl eq_refl) as (Hn & _).
+  split; [apply Hl; [ex_plain|repeat constructor; nl_char]|]. split; [apply (Hsh [102]%N eq_refl); [ex_plain|repeat constructor; nl_char]|].
+  apply Hn. split; [discriminate|]. split; [ex_plain|repeat constructor; nl_char].
+Qed.
+(* page_bytes_are_the_visible_texts_of_its_elements, both sides computed, for the command page of the examples at 34 columns *)
+Example ex_page_is_its_visible_texts :
+  match render_page 34 ex_plainf (ex_page_for ex_plainf) with
+  | Ok s => str_eqb (filter nsp s) (concat (map (fun x => elem_vis (f_styles ex_plainf) (snd x)) (ex_page_for ex_plainf)))
+  | Err _ => false end = true.
+Proof. vm_compute. reflexivity. Qed.
